@@ -5,7 +5,7 @@ Dictionaries are compared as Python dicts (key order is not part of the property
 bytes of arrays — must be identical. Run by the driver on the IMPLEMENTATION's output.
 -/
 import Bermuda.Model.Codec
-namespace Bermuda.Spec
+namespace Bermuda.Spec.C05
 open Bermuda.Codec
 
 /-- first value stored under `k` -/
@@ -32,4 +32,4 @@ def cellsEqv : List RawCell → List RawCell → Bool
 /-- C05: what was read is what was written -/
 def roundTrip (original decoded : RawTriangle) : Bool := cellsEqv original decoded
 
-end Bermuda.Spec
+end Bermuda.Spec.C05
